@@ -54,6 +54,12 @@ impl<T: Repr, const N: usize> Repr for [T; N] {
         format!("[{};{}]", v.join(","), N)
     }
 }
+impl<K: Repr, V: Repr> Repr for std::collections::BTreeMap<K, V> {
+    fn repr(&self) -> String {
+        let v: Vec<String> = self.iter().map(|(k, v)| format!("{}=>{}", k.repr(), v.repr())).collect();
+        format!("{{{}}}", v.join(","))
+    }
+}
 impl Repr for () {
     fn repr(&self) -> String {
         "()".to_string()
